@@ -223,3 +223,54 @@ Proof.
   constructor; [|repeat constructor].
   repeat constructor; unfold mlt; vm_compute; reflexivity.
 Qed.
+
+(* ---------- the synthetic backend end to end (parser model: Text/Synthetic.v, C07; request generation:
+   Topo/SynthBuild.v, tied to the objects the backend really hands to the core on every traced synthetic load) ---------- *)
+From HV Require Import Base.Bytes Topo.SynthBuild Topo.SynthBuildProofs.
+From HV Require Text.Synthetic.
+From Coq Require Import String.
+
+(* For every parsed description whose level array has the parser's shape (inner levels of arity >= 1, then the
+   PU level) and every filter assignment: the root cpuset is exactly the set of PU indexes drawn; every requested
+   object's cpuset is included in it; and when those indexes are pairwise distinct the requested cpusets are
+   pairwise nested or disjoint - the hypothesis under which insertion by cpuset (C02: insert_keeps_order) yields
+   "every cpuset is the disjoint union of the children's cpusets". *)
+Theorem synthetic_requests_are_laminar : forall keep sy l0 below,
+  Synthetic.sy_levels sy = l0 :: below -> shape_ok below ->
+  exists total,
+    let '(set, rs) := requests keep sy in
+    in_range below 0 total set /\
+    Forall (fun r => SetsProofs.sub (r_cs r) set) rs /\
+    (inj_on below total -> Laminar rs).
+Proof. exact synthetic_requests_spec. Qed.
+Print Assumptions synthetic_requests_are_laminar.
+
+(* the index hypothesis holds without an explicit index list, and with one that has no duplicate *)
+Theorem synthetic_default_indexes_distinct : forall levels bound,
+  Synthetic.lv_iarr (leaf_of levels) = None -> Synthetic.lv_type (leaf_of levels) = HWLOC_OBJ_PU -> inj_on levels bound.
+Proof. exact default_indexes_distinct. Qed.
+Print Assumptions synthetic_default_indexes_distinct.
+
+Theorem synthetic_array_indexes_distinct : forall levels bound a,
+  Synthetic.lv_iarr (leaf_of levels) = Some a -> NoDup (firstn (N.to_nat bound) a) -> (N.to_nat bound <= List.length a)%nat ->
+  inj_on levels bound.
+Proof. exact array_indexes_distinct. Qed.
+Print Assumptions synthetic_array_indexes_distinct.
+
+(* Non-vacuity: "pack:2 core:2 pu:2" parses, its levels have the required shape, and the requests are the 8 PUs
+   (each a singleton), then cores, packages and the default NUMA node, children first *)
+Example synthetic_requests_example :
+  exists sy l0 below,
+    Synthetic.parse Synthetic.Cur (bytes_of_string "pack:2 core:2 pu:2" ++ [0]) = Synthetic.Ret sy /\
+    Synthetic.sy_levels sy = l0 :: below /\ shape_ok below /\
+    map (fun r => (r_type r, r_cs r)) (snd (requests (fun _ => true) sy)) =
+      [(HWLOC_OBJ_PU, bs_of_N 1); (HWLOC_OBJ_PU, bs_of_N 2); (HWLOC_OBJ_CORE, bs_of_N 3);
+       (HWLOC_OBJ_PU, bs_of_N 4); (HWLOC_OBJ_PU, bs_of_N 8); (HWLOC_OBJ_CORE, bs_of_N 12); (HWLOC_OBJ_PACKAGE, bs_of_N 15);
+       (HWLOC_OBJ_PU, bs_of_N 16); (HWLOC_OBJ_PU, bs_of_N 32); (HWLOC_OBJ_CORE, bs_of_N 48);
+       (HWLOC_OBJ_PU, bs_of_N 64); (HWLOC_OBJ_PU, bs_of_N 128); (HWLOC_OBJ_CORE, bs_of_N 192); (HWLOC_OBJ_PACKAGE, bs_of_N 240);
+       (HWLOC_OBJ_NUMANODE, bs_of_N 255)].
+Proof.
+  eexists. eexists. eexists. split; [vm_compute; reflexivity|]. split; [vm_compute; reflexivity|]. split.
+  - repeat first [apply shape_leaf; vm_compute; reflexivity | apply shape_inner; [vm_compute; discriminate|]].
+  - vm_compute. reflexivity.
+Qed.
